@@ -143,6 +143,7 @@ type Session struct {
 	Crafted []Obj // non-nil: no sender; one packfile with exactly these objects in this order
 	Tag     string
 	Observe bool // project every received table for Objects.tla (expensive: runs the doctor)
+	Recv    objects.Store // the store the receiver writes through (nil: the destination itself); fault injection wraps it
 }
 
 func (w *World) scnEvent(s *Session, src Objs) *Event {
@@ -204,7 +205,11 @@ func (w *World) transfer(s *Session, out *Outcome) {
 	for _, c := range s.Send {
 		expected = append(expected, w.Sums[c])
 	}
-	recv := apiutils.NewObjectReceiver(w.Dst, expected, logr.Discard(),
+	var rdb objects.Store = w.Dst
+	if s.Recv != nil {
+		rdb = s.Recv
+	}
+	recv := apiutils.NewObjectReceiver(rdb, expected, logr.Discard(),
 		apiutils.WithReceiverSaveObjectHook(func(typ int, sum []byte) {
 			hooked = append(hooked, w.BySum(typ, append([]byte{}, sum...)))
 		}))
